@@ -126,6 +126,12 @@ theorem soft_equals_fresh_view (g : Global) (e : Pol) (t : PeerCfg) (hrs : t.isR
   simp only [dstep]
   exact SoftReset.soft_out_restores g e t _ _ inv1
 
+/-- the atomicity premise of the export-side steps, as checked against the code: a sending
+    re-advertisement that satisfies `lockOk` holds the write lock -/
+theorem refresh_lock_premise (sends write : Bool) (h : lockOk sends write = true) (hs : sends = true) :
+    write = true := by
+  subst hs; simpa [lockOk] using h
+
 /-! ## import side -/
 
 /-- the modelled import policy keeps a route's key (source, path-id) -/
@@ -173,12 +179,19 @@ theorem applyPol_keyPres (p : Pol) (peerOf : Cand → Nat) :
     import function `f1` the Loc-RIB path list — order included, hence the best path — equals
     that of the speaker that evaluated every event under `f1`: newly rejected routes are gone,
     newly accepted ones are in (with their original arrival time), rewritten attributes are
-    current.  Hypotheses as in C03: MED comparable throughout, one route per neighbour address. -/
+    current.  A source is a (neighbour, path-id) pair: with ADD-PATH receive a neighbour may
+    contribute several routes to the destination (the Adj-RIB-In then holds several paths per
+    prefix, loop-rejected ones among them — those are not replayed and are not in `adjOf`).
+    Hypotheses: MED comparable throughout (C03), and no two different live routes tie in the
+    whole decision process (`distinct`; implied by pairwise different neighbour addresses, see
+    `distinct_addr_keys`; for the routes of one neighbour any difference in LOCAL_PREF, AS_PATH
+    length, ORIGIN, MED or eBGP age will do) — without it the order of tied routes is the
+    arrival order, which a replay does not reproduce. -/
 theorem soft_in_equals_fresh (o : Opts) (f1 : Cand → Option Cand)
     (evs : List (Ev × (Cand → Option Cand))) (hk1 : KeyPres f1) (hk : ∀ p ∈ evs, KeyPres p.2)
     (B : List Cand) (hB : B.Perm (adjOf (evs.map (·.1))))
     (wf : SetWF o (opCands ((evs.map (·.1)).map (opOf f1)) ++ opCands (hist evs ++ softOps f1 B)))
-    (distinct : (spec ((evs.map (·.1)).map (opOf f1))).Pairwise (fun a b => a.src.addr ≠ b.src.addr)) :
+    (distinct : (spec ((evs.map (·.1)).map (opOf f1))).Pairwise (fun a b => key o a ≠ key o b)) :
     BestPath.run o (hist evs ++ softOps f1 B) = BestPath.run o ((evs.map (·.1)).map (opOf f1)) := by
   obtain ⟨hn, hc⟩ := inv_hist evs hk
   have hnB : NodupKey B := by
@@ -196,7 +209,13 @@ theorem soft_in_equals_fresh (o : Opts) (f1 : Cand → Option Cand)
   have same : (spec ((evs.map (·.1)).map (opOf f1))).Perm (spec (hist evs ++ softOps f1 B)) := by
     rw [hspec, fresh_eq hk1]
     exact (((List.reverse_perm B).trans hB).filterMap f1).symm
-  exact (C03.C03_order_independent o _ _ wf distinct same).symm
+  exact (order_independent_keys o _ _ wf distinct same).symm
+
+/-- different neighbour addresses are a special case of "no two live routes tie" -/
+theorem distinct_addr_keys (o : Opts) (l : List Cand)
+    (h : l.Pairwise (fun a b => a.src.addr ≠ b.src.addr)) :
+    l.Pairwise (fun a b => key o a ≠ key o b) :=
+  h.imp (fun {a b} hab hk => hab (C03.key_addr o a b hk))
 
 /-- **soft_in_idempotent.** A second soft reset in leaves the Loc-RIB path list as it is. -/
 theorem soft_in_idempotent (o : Opts) (f1 : Cand → Option Cand)
@@ -204,10 +223,10 @@ theorem soft_in_idempotent (o : Opts) (f1 : Cand → Option Cand)
     (wf : SetWF o (opCands (hist evs ++ softOps f1 (adjOf (evs.map (·.1)))) ++
       opCands (hist evs ++ softOps f1 (adjOf (evs.map (·.1))) ++ softOps f1 (adjOf (evs.map (·.1))))))
     (distinct : (spec (hist evs ++ softOps f1 (adjOf (evs.map (·.1))))).Pairwise
-      (fun a b => a.src.addr ≠ b.src.addr)) :
+      (fun a b => key o a ≠ key o b)) :
     BestPath.run o (hist evs ++ softOps f1 (adjOf (evs.map (·.1))) ++ softOps f1 (adjOf (evs.map (·.1)))) =
       BestPath.run o (hist evs ++ softOps f1 (adjOf (evs.map (·.1)))) :=
-  (C03.C03_order_independent o _ _ wf distinct (spec_soft_idem f1 evs hk1 hk).symm).symm
+  (order_independent_keys o _ _ wf distinct (spec_soft_idem f1 evs hk1 hk).symm).symm
 
 /-- **soft_in_then_changes** (interleaving form): events that arrive after the reset and are
     evaluated under the current import function keep the two speakers equal. -/
@@ -215,7 +234,7 @@ theorem soft_in_then_changes (o : Opts) (f1 : Cand → Option Cand)
     (evs : List (Ev × (Cand → Option Cand))) (hk1 : KeyPres f1) (hk : ∀ p ∈ evs, KeyPres p.2)
     (B : List Cand) (hB : B.Perm (adjOf (evs.map (·.1))))
     (wf : SetWF o (opCands ((evs.map (·.1)).map (opOf f1)) ++ opCands (hist evs ++ softOps f1 B)))
-    (distinct : (spec ((evs.map (·.1)).map (opOf f1))).Pairwise (fun a b => a.src.addr ≠ b.src.addr))
+    (distinct : (spec ((evs.map (·.1)).map (opOf f1))).Pairwise (fun a b => key o a ≠ key o b))
     (more : List Ev) :
     BestPath.run o (hist evs ++ softOps f1 B ++ more.map (opOf f1)) =
       BestPath.run o ((evs.map (·.1) ++ more).map (opOf f1)) := by
@@ -275,6 +294,13 @@ example : [r2, r1].Perm (adjOf ([(Ev.ann r1, fOld), (Ev.ann r2, fOld)].map (·.1
   have : adjOf ([(Ev.ann r1, fOld), (Ev.ann r2, fOld)].map (·.1)) = [r2, r1] := by decide
   rw [this]
 example : KeyPres fNew := applyPol_keyPres _ (fun _ => 1)
+/-- ADD-PATH receive: two routes of ONE neighbour (path-ids 1 and 2, different ORIGIN) -/
+def r1b : Cand := { r1 with pathId := 2, marker := 3, origin := some 1, comms := [], ts := 3 }
+example : BestPath.run ⟨true, false, false⟩
+    (hist [(.ann { r1 with pathId := 1 }, fOld), (.ann r1b, fOld)] ++ softOps fNew [{ r1 with pathId := 1 }, r1b]) = [r1b] := by
+  decide
+example : [{ r1 with pathId := 1 }, r1b].Pairwise (fun a b => key ⟨true, false, false⟩ a ≠ key ⟨true, false, false⟩ b) := by
+  decide
 example : PairWF ⟨true, false, false⟩ r1 r2 := ⟨by decide, by decide, by decide, by decide⟩
 example : ListsWF g0 tE [[r1, r2], [r2]] := by
   refine ⟨?_, ?_, ?_⟩
